@@ -50,19 +50,20 @@ func (o *opw) op(name string, tyname string, args ...string) {
 
 // G is the generation state shared by the per-plugin emitters.
 type G struct {
-	env   *ty.Env
-	vg    *gen.VGen
-	ow    *opw
-	m     *strings.Builder // body of main.init
-	q     *strings.Builder // current derive-call package
-	qn    string
-	i     int    // type index
-	tn    string // "T<i>"
-	t     *ty.Ty
-	gt    string // Go spelling of the type as package main sees it
-	gtq   string // … as the derive package sees it (differs for the types q0 declares itself)
-	stats map[string]int
-	pool  []*ty.Val
+	env    *ty.Env
+	vg     *gen.VGen
+	ow     *opw
+	m      *strings.Builder // body of main.init
+	q      *strings.Builder // current derive-call package
+	qn     string
+	i      int    // type index
+	tn     string // "T<i>"
+	t      *ty.Ty
+	gt     string // Go spelling of the type as package main sees it
+	gtq    string // … as the derive package sees it (differs for the types q0 declares itself)
+	stats  map[string]int
+	pool   []*ty.Val
+	nanSeq uint64 // payload counter of the NaN leaves
 }
 
 // reg emits a registration of op `name` for the current type: `body` computes a string from x, y…
@@ -249,13 +250,18 @@ func (g *G) priors(src *ty.Val) []*ty.Val {
 
 // withNaNKeys returns a copy of v (a value of type t) in which every map keyed by a float type holds one more entry,
 // under a NaN key (nil maps of such a type become one-entry maps).
-func (g *G) withNaNKeys(t *ty.Ty, v *ty.Val) (*ty.Val, bool) {
+func (g *G) withNaNKeys(t *ty.Ty, v *ty.Val) (*ty.Val, bool) { return g.withNaNKeysN(t, v, 1, 1) }
+
+// withNaNKeysN adds n entries under NaN keys of the payloads base, base+1, … (quiet NaNs; different bit patterns, so
+// that the canonical form of a map, which is sorted by the bits of the keys, stays unambiguous); the values are the
+// first n pool values of the element type, i.e. different ones where the pool has them.
+func (g *G) withNaNKeysN(t *ty.Ty, v *ty.Val, n int, base uint64) (*ty.Val, bool) {
 	u := g.env.Under(t)
 	c := *v
 	c.Elems = append([]*ty.Val(nil), v.Elems...)
 	changed := false
 	sub := func(i int, et *ty.Ty) {
-		if nv, ch := g.withNaNKeys(et, c.Elems[i]); ch {
+		if nv, ch := g.withNaNKeysN(et, c.Elems[i], n, base); ch {
 			c.Elems[i], changed = nv, true
 		}
 	}
@@ -283,18 +289,84 @@ func (g *G) withNaNKeys(t *ty.Ty, v *ty.Val) (*ty.Val, bool) {
 			}
 		}
 		if ku := g.env.Under(u.Key); ku.K == ty.Basic && (ku.B == "float64" || ku.B == "float32") {
-			w, bits := 64, uint64(0x7ff8000000000001)
+			w, bits := 64, uint64(0x7ff8000000000000)
 			if ku.B == "float32" {
-				w, bits = 32, 0x7fc00001
+				w, bits = 32, 0x7fc00000
 			}
 			if v.K != ty.VMap {
 				c = ty.Val{K: ty.VMap}
 			}
-			c.Elems = append(c.Elems, &ty.Val{K: ty.VFlt, W: w, Bits: bits}, g.vg.Pool(u.Elem)[0])
+			ep := g.vg.Pool(u.Elem)
+			for j := 0; j < n; j++ {
+				c.Elems = append(c.Elems, &ty.Val{K: ty.VFlt, W: w, Bits: bits + base + uint64(j)}, ep[j%len(ep)])
+			}
 			changed = true
 		}
 	}
 	return &c, changed
+}
+
+// withNaNLeaves returns a copy of v (a value of type t) in which every float leaf that is not part of a map key is a
+// NaN (complex leaves: the imaginary part), each with a payload of its own, so that a copy that mixes two of them up,
+// or that canonicalises NaNs, has different bits. Only the copy ops use these values: Equal, Compare and Hash of
+// NaN are outside C02–C04.
+func (g *G) withNaNLeaves(t *ty.Ty, v *ty.Val, next *uint64) (*ty.Val, bool) {
+	u := g.env.Under(t)
+	c := *v
+	c.Elems = append([]*ty.Val(nil), v.Elems...)
+	changed := false
+	sub := func(i int, et *ty.Ty) {
+		if nv, ch := g.withNaNLeaves(et, c.Elems[i], next); ch {
+			c.Elems[i], changed = nv, true
+		}
+	}
+	switch u.K {
+	case ty.Basic:
+		quiet := map[int]uint64{32: 0x7fc00000, 64: 0x7ff8000000000000}
+		switch v.K {
+		case ty.VFlt:
+			*next++
+			c.Bits, changed = quiet[v.W]+*next%1000, true
+		case ty.VCplx:
+			*next++
+			c.Bits2, changed = quiet[v.W]+*next%1000, true
+		}
+	case ty.Ptr:
+		if v.K == ty.VPtr {
+			sub(0, u.Elem)
+		}
+	case ty.Slice, ty.Array:
+		if v.K == ty.VSlice || v.K == ty.VArr {
+			for i := range c.Elems {
+				sub(i, u.Elem)
+			}
+		}
+	case ty.Struct:
+		if v.K == ty.VStruct {
+			for i, f := range u.Fields {
+				sub(i, f.T)
+			}
+		}
+	case ty.Map:
+		if v.K == ty.VMap {
+			for i := 1; i < len(c.Elems); i += 2 {
+				sub(i, u.Elem)
+			}
+		}
+	}
+	return &c, changed
+}
+
+// sharesKey reports whether two map templates have a key in common (under Go's ==).
+func sharesKey(a, b *ty.Val) bool {
+	for i := 0; i < len(a.Elems); i += 2 {
+		for j := 0; j < len(b.Elems); j += 2 {
+			if gen.GoEq(a.Elems[i], b.Elems[j]) {
+				return true
+			}
+		}
+	}
+	return false
 }
 
 func (g *G) emitDeepCopy() {
@@ -307,7 +379,7 @@ func (g *G) emitDeepCopy() {
 		o.Observe(vx)
 		o.SetSide(1)
 		sd := o.Observe(vy)
-		return rt.CopyAnswer(sd, reflect.DeepEqual(x, y), o.Overlaps(0, 1), s0 == rt.NewObs().Observe(vx))`, g.qn, i)
+		return rt.CopyAnswer(sd, reflect.DeepEqual(x, y), rt.ShapeEqual(x, y), o.Overlaps(0, 1), s0 == rt.NewObs().Observe(vx))`, g.qn, i)
 	g.reg("deepcopy", 2, body)
 	g.reg("deepcopyx", 2, body)
 	for _, a := range g.pool {
@@ -318,6 +390,55 @@ func (g *G) emitDeepCopy() {
 				name = "deepcopyx" // outside the property's precondition: correspondence only
 			}
 			g.ow.op(name, g.tn, src.Wire(), d.Wire())
+		}
+		// a source whose float-keyed maps hold a NaN key: the entry copied under it can never be looked up again
+		// (two NaN keys of different payloads, holding different values where the pool of the element type has two)
+		if nv, changed := g.withNaNKeysN(g.t, a, 2, 1); changed && a.K != ty.VNil {
+			nsrc := g.vg.Inst(nv)
+			ps := g.priors(nsrc)
+			for k, d := range ps {
+				if k < 2 || k == len(ps)-1 {
+					g.ow.op("deepcopy", g.tn, nsrc.Wire(), d.Wire())
+					g.stats["c05:deepcopy-nan-key-source"]++
+				}
+			}
+		}
+		// a source whose float leaves are NaNs, each of its own payload
+		if nv, changed := g.withNaNLeaves(g.t, a, &g.nanSeq); changed {
+			nsrc := g.vg.Inst(nv)
+			for k, d := range g.priors(nsrc) {
+				if k < 2 {
+					g.ow.op("deepcopy", g.tn, nsrc.Wire(), d.Wire())
+					g.stats["c05:deepcopy-nan-leaf-source"]++
+				}
+			}
+		}
+	}
+	// outside the property's precondition (correspondence only): a top-level map copied into a POPULATED map that
+	// shares keys with the source: the entries under common keys are overwritten by fresh copies, foreign keys stay,
+	// NaN keys of either side pile up
+	if g.env.Under(g.t).K == ty.Map {
+		for _, a := range g.pool {
+			if a.K != ty.VMap || len(a.Elems) == 0 {
+				continue
+			}
+			n := 0
+			for _, b := range g.pool {
+				if b.K != ty.VMap || len(b.Elems) == 0 || !sharesKey(a, b) {
+					continue
+				}
+				g.ow.op("deepcopyx", g.tn, g.vg.Inst(a).Wire(), g.vg.Inst(b).Wire())
+				g.stats["c05:deepcopyx-populated-prior"]++
+				if na, changed := g.withNaNKeysN(g.t, a, 2, 1); changed && n == 0 {
+					nb, _ := g.withNaNKeysN(g.t, b, 1, 3)
+					g.ow.op("deepcopyx", g.tn, g.vg.Inst(na).Wire(), g.vg.Inst(nb).Wire())
+					g.stats["c05:deepcopyx-populated-prior"]++
+					g.stats["c05:deepcopyx-populated-prior-nan-keys"]++
+				}
+				if n++; n >= 3 {
+					break
+				}
+			}
 		}
 	}
 	g.withMutations(func(x, mu *ty.Val) {
@@ -341,10 +462,18 @@ func (g *G) emitClone() {
 		o.Observe(vx)
 		o.SetSide(1)
 		sd := o.Observe(vy)
-		return rt.CopyAnswer(sd, reflect.DeepEqual(x, y), o.Overlaps(0, 1), s0 == rt.NewObs().Observe(vx))`, g.qn, i)
+		return rt.CopyAnswer(sd, reflect.DeepEqual(x, y), rt.ShapeEqual(x, y), o.Overlaps(0, 1), s0 == rt.NewObs().Observe(vx))`, g.qn, i)
 	g.reg("clone", 1, body)
 	for _, a := range g.pool {
 		g.ow.op("clone", g.tn, g.vg.Inst(a).Wire())
+		if nv, changed := g.withNaNKeysN(g.t, a, 2, 1); changed {
+			g.ow.op("clone", g.tn, g.vg.Inst(nv).Wire())
+			g.stats["c05:clone-nan-key-source"]++
+		}
+		if nv, changed := g.withNaNLeaves(g.t, a, &g.nanSeq); changed {
+			g.ow.op("clone", g.tn, g.vg.Inst(nv).Wire())
+			g.stats["c05:clone-nan-leaf-source"]++
+		}
 	}
 	g.withMutations(func(x, mu *ty.Val) {
 		g.ow.op("clone", g.tn, mu.Wire())
